@@ -19,7 +19,8 @@ computed from the REAL input table only (so a wrong model cannot hide a wrong an
 generic (non unit) argument value.
 
 This module also hosts the machinery shared with C22 (universes, MC module generation, world of
-real objects, point assembly).
+real objects, point assembly), including what only C22 uses: interior facet universes (Uni.sides = 2:
+restrictions rp / rm, dS integrals, slots and coefficient values per side of the facet).
 """
 
 from __future__ import annotations
@@ -411,6 +412,7 @@ def sample_programs(uni, seed, n):
         kinds0.append(op)
         degs0.append(_op_degs(op, [degs0[i - 1] for i in args]))
         rst0.append(_op_rs(op, [rst0[i - 1] for i in args]))
+    nbase = len(uni.args) + len(uni.allcoefs) + len(uni.lits)
     pure = uni.formops == {"extract_blocks"}  # only purely bilinear / linear forms are block-extracted
     ops = sorted(uni.ops)
     maxd = uni.depth or uni.maxnodes
@@ -428,13 +430,27 @@ def sample_programs(uni, seed, n):
             for _ in range(8):
                 op = rng.choice(ops)
 
-                def pick():
+                def pick(compat=None):
                     # prefer nodes nothing uses yet, so that the program stays connected
-                    if unused and rng.random() < 0.65:
-                        return rng.choice(unused)
-                    return rng.choice(avail)
+                    pool = unused if unused and rng.random() < 0.65 else avail
+                    if compat is not None:
+                        # interior facet universes: an operand whose restriction state fits (mirror of RsOk)
+                        pool = [i for i in pool if rst[i - 1] in compat] or pool
+                    return rng.choice(pool)
 
-                if op in UNARY:
+                def fits(i):
+                    return None if uni.sides == 1 else {"done": ("done", "lit"), "free": ("free", "lit"), "lit": None}[rst[i - 1]]
+
+                def restricted(i):
+                    """the operand of the restriction node i"""
+                    return prog[i - uni.ninit - 1]["args"][0] if i > uni.ninit else uni.prelude[i - nbase - 1][1][0]
+
+                if op in ("rp", "rm"):
+                    # the other trace of an expression of which one trace exists already, or any expression
+                    twins = sorted({restricted(i) for i in avail if kinds[i - 1] == ("rm" if op == "rp" else "rp")})
+                    a = [rng.choice(twins) if twins and rng.random() < 0.5 else pick(("free",))]
+                    mi = []
+                elif op in UNARY:
                     a = [pick()]
                     mi = []
                 elif op == "index":
@@ -444,7 +460,10 @@ def sample_programs(uni, seed, n):
                         continue
                     mi = [rng.randrange(d) for d in sh]
                 else:
-                    a = [pick(), pick()]
+                    a = [pick()]
+                    # x('+') with x('-') (the terms of jumps and averages), or any operand
+                    twins = [i for i in avail if {kinds[i - 1], kinds[a[0] - 1]} == {"rp", "rm"} and restricted(i) == restricted(a[0])] if uni.sides == 2 else []
+                    a.append(rng.choice(twins) if twins and rng.random() < 0.4 else pick(fits(a[0])))
                     mi = []
                 sh = _op_shape(op, [shapes[i - 1] for i in a])
                 if sh is None:
